@@ -81,7 +81,7 @@ Section App.
     forall i j, (i < length a)%nat -> (j < length a)%nat -> must_precede a i j ->
       exists ic m e, In ic (flagged (ancestors (p_path (port_at a j)))) /\
                      apropos (if fst ic then snd ic ++ [slash] else snd ic) = Some m /\
-                     In e (dep_values m) /\ rel2abs e (snd ic) = Some (p_path (port_at a i)).
+                     In e (dep_values m) /\ resolve_entry (fst ic) (port_name m) e (snd ic) = Some (p_path (port_at a i)).
   Hypothesis DECL : declared.
 
   Definition msgs (ls : list line) : list (message line) := map (fun l => (l_path l, l)) ls.
@@ -158,7 +158,8 @@ Section App.
       { intro Hc. pose proof (find_port_at a i (w_paths a WF) Hi) as F1.
         pose proof (find_port_at a j (w_paths a WF) Hj) as F2. rewrite Hc in F1.
         assert (i = j) by congruence. subst j. exact (not_self a WF i Hi Hm). }
-      eapply scan_complete; try eassumption.
+      apply flagged_in_lookups in Hic.
+      eapply (scan_complete apropos _ _ _ fuel ds {| lk_path := lookup_path ic; lk_base := snd ic; lk_parent := fst ic |} m e); try eassumption.
       rewrite has_key_map_keys. apply existsb_exists. exists (fst x). split; [apply in_map; assumption|].
       rewrite Fx, <- Hpi. apply streqb_true. reflexivity. }
     intros s0 Hs0.
